@@ -1,11 +1,29 @@
 //! C06: Batched (all four sort/shuffle modes, both limit types) against the model.
 //! input  = (sort shuffle prefetch limit ty seed sizes)   items are (position, size)
-//! output = (batches rep) | (2 batches) more batches than items | (-777) panic | (-778) hang
+//! output = (batches rep obs) | (2 batches) more batches than items | (-777) panic | (-778) hang
 //!          batches = lists of item positions; rep = a second run with the same seed
-//!          produced the same batches.
-//! The rng decisions are not observed: the model side reconstructs, batch by batch, an
-//! oracle under which its own build_batch emits what the implementation emitted.
+//!          produced the same batches (and pulled upstream at the same moments);
+//!          obs = () for the deterministic modes, ((e_0 e_1 ...)) for the shuffling modes:
+//!          the rng decisions of the run, one entry (n p) per emitted batch.
+//! Two lines of correspondence for the shuffling modes:
+//! * exact (tag `exact-rng`): the harness builds ChaCha8Rng::seed_from_u64(seed) itself (same
+//!   rand / rand_chacha as /repo: one resolution, they are path-dependencies of one build) and
+//!   replays `shuffle` / `random_range(0..m)` on index vectors in lock-step with the calls of
+//!   next(). The sizes of the draws are OBSERVED, not re-computed: the upstream iterator is
+//!   wrapped in a counter, so after call t the buffer length at shuffle time is
+//!   (items pulled so far) - (items emitted before call t); for sort+shuffle the number of
+//!   sub-sequences comes from the crate's own find_subsequences_of_max_size_k on the sorted
+//!   sizes of the items known to be in the buffer. The model must then emit exactly the
+//!   implementation's batches, and it rejects a decision recorded for another buffer length.
+//! * relational: the model side reconstructs, batch by batch, an oracle under which its own
+//!   build_batch emits what the implementation emitted.
+use rand::seq::SliceRandom;
+use rand::{Rng as _, SeedableRng};
+use rand_chacha::ChaCha8Rng;
+use std::sync::atomic::{AtomicUsize, Ordering};
+use std::sync::Arc;
 use text_utils::data::loading::{BatchLimitType, BatchedIterator, ItemSize};
+use text_utils::utils::find_subsequences_of_max_size_k;
 use vh::*;
 
 const TIMEOUT_MS: u64 = 1500;
@@ -67,20 +85,98 @@ fn to_val(c: &Cfg) -> Val {
     ])
 }
 
-/// run the real iterator to the end
+/// upstream wrapper: counts the items pulled by `Batched`
+struct Counted<I> {
+    inner: I,
+    pulled: Arc<AtomicUsize>,
+}
+
+impl<I: Iterator> Iterator for Counted<I> {
+    type Item = I::Item;
+    fn next(&mut self) -> Option<I::Item> {
+        let x = self.inner.next();
+        if x.is_some() {
+            self.pulled.fetch_add(1, Ordering::SeqCst);
+        }
+        x
+    }
+}
+
+/// run the real iterator to the end: ((batches) (pulled_0 pulled_1 ...)) where pulled_t is the
+/// number of upstream items consumed when the t-th batch was returned
 fn drain(c: &Cfg) -> Val {
     let items: Vec<Item> = c.sizes.iter().enumerate().map(|(id, s)| Item { id, size: *s }).collect();
     let n = items.len();
     let ty = if c.ty == 0 { BatchLimitType::BatchSize } else { BatchLimitType::PaddedItemSize };
-    let it = items.into_iter().batched(c.sort, c.shuffle, c.prefetch, c.limit, ty, Some(c.seed));
+    let pulled = Arc::new(AtomicUsize::new(0));
+    let up = Counted { inner: items.into_iter(), pulled: pulled.clone() };
+    let it = up.batched(c.sort, c.shuffle, c.prefetch, c.limit, ty, Some(c.seed));
     let mut batches = vec![];
+    let mut pulls = vec![];
     for b in it {
         batches.push(Val::list(b.iter(), |x| Val::u(x.id)));
+        pulls.push(Val::u(pulled.load(Ordering::SeqCst)));
         if batches.len() > n + 2 {
             return Val::L(vec![Val::I(2), Val::L(batches)]);
         }
     }
-    Val::L(batches)
+    Val::L(vec![Val::L(batches), Val::L(pulls)])
+}
+
+/// selection sequence (Lehmer code) of a permutation given as `new[j] = old[idx[j]]`:
+/// element k = position of idx[k] among the indices not yet taken, in increasing order
+fn lehmer(idx: &[usize]) -> Vec<usize> {
+    (0..idx.len()).map(|k| idx[k] - idx[..k].iter().filter(|j| **j < idx[k]).count()).collect()
+}
+
+/// The rng decisions of a run, replayed in lock-step from the seed. `None` if what was observed
+/// is inconsistent (more emitted than pulled, unknown ids): no exact line for such an output.
+fn observe(c: &Cfg, batches: &[Vec<usize>], pulls: &[usize]) -> Option<Val> {
+    if !c.shuffle {
+        return None;
+    }
+    let mut rng = ChaCha8Rng::seed_from_u64(c.seed);
+    let limit = c.limit.max(1);
+    let mut entries = vec![];
+    let mut emitted = 0usize;
+    let mut inbuf: Vec<usize> = vec![]; // ids known to be in the buffer
+    let mut seen = 0usize; // upstream items accounted for
+    for (b, p) in batches.iter().zip(pulls) {
+        if *p > c.sizes.len() || *p < seen || *p < emitted {
+            return None;
+        }
+        inbuf.extend(seen..*p);
+        seen = *p;
+        let n = *p - emitted; // buffer length when shuffle / sort ran in this call
+        if n != inbuf.len() {
+            return None;
+        }
+        if !c.sort {
+            let mut idx: Vec<usize> = (0..n).collect();
+            idx.shuffle(&mut rng); // same algorithm, same number of draws as on Vec<Item> of length n
+            entries.push(Val::L(vec![Val::u(n), Val::list(lehmer(&idx).iter(), |i| Val::u(*i))]));
+        } else {
+            let mut sorted: Vec<usize> = inbuf.iter().map(|i| c.sizes[*i]).collect();
+            sorted.sort();
+            let ty = c.ty;
+            let m = find_subsequences_of_max_size_k(&sorted, limit, |sub: &[usize]| {
+                if ty == 0 { sub.len() } else { sub.len() * sub.iter().copied().max().unwrap_or(0) }
+            })
+            .len();
+            if m == 0 {
+                entries.push(Val::L(vec![Val::u(0), Val::L(vec![])]));
+            } else {
+                let i = rng.random_range(0..m);
+                entries.push(Val::L(vec![Val::u(m), Val::L(vec![Val::u(i)])]));
+            }
+        }
+        for id in b {
+            let pos = inbuf.iter().position(|x| x == id)?;
+            inbuf.remove(pos);
+        }
+        emitted += b.len();
+    }
+    Some(Val::L(entries))
 }
 
 impl C06 {
@@ -110,8 +206,82 @@ fn gen_sizes(rng: &mut Rng, n: usize, maxs: usize) -> Vec<usize> {
     }
 }
 
+/// a random composition of `total` into positive parts
+fn composition(rng: &mut Rng, total: usize) -> Vec<usize> {
+    let mut parts = vec![];
+    let mut left = total;
+    while left > 0 {
+        let p = rng.range(1, left);
+        parts.push(p);
+        left -= p;
+    }
+    parts
+}
+
+/// sizes and settings chosen around the limit boundary, for both limit types: blocks with
+/// count (batch_size) or count * max (padded) exactly at the limit / one above, sums exactly at
+/// / one above the limit, single items of size limit / limit + 1, all-zero blocks, blocks of
+/// limit * prefetch (+ 1) items (the buffer fill boundary), the largest item first / last in
+/// its block, an oversized item first / in the middle / last; prefetch mostly 0 or 1.
+fn gen_boundary(rng: &mut Rng) -> Cfg {
+    let mode = rng.below(4);
+    let (sort, shuffle) = (mode & 1 == 1, mode & 2 == 2);
+    let ty = rng.below(2) as i64;
+    let limit = match rng.below(10) {
+        0 => 0,
+        1 => 1,
+        _ => rng.range(2, 9),
+    };
+    let l = limit.max(1);
+    let prefetch = *rng.pick(&[0usize, 0, 1, 1, 1, 2, 2, 3]);
+    let p = prefetch.max(1);
+    let divisors = |x: usize| -> Vec<usize> { (1..=x).filter(|d| x % d == 0).collect() };
+    let mut sizes: Vec<usize> = vec![];
+    for _ in 0..rng.range(1, 3) {
+        let mut block: Vec<usize> = match rng.below(12) {
+            0 => vec![1; l],                                   // count = limit
+            1 => vec![1; l + 1],                               // count = limit + 1
+            2 => { let m = *rng.pick(&divisors(l)); vec![m; l / m] }             // count * max = limit
+            3 => { let m = *rng.pick(&divisors(l)); vec![m; l / m + 1] }         // one item more
+            4 => { let m = *rng.pick(&divisors(l + 1)); vec![m; (l + 1) / m] }   // count * max = limit + 1
+            5 => vec![l],                                      // one item, size = limit
+            6 => vec![l + 1],                                  // one item, size = limit + 1
+            7 => composition(rng, l),                          // sum = limit
+            8 => composition(rng, l + 1),                      // sum = limit + 1
+            9 => vec![0; *rng.pick(&[l, l + 1, l * p, l * p + 1])],               // zeros
+            10 => vec![1; l * p + rng.below(2)],               // buffer fill boundary
+            _ => {
+                // count * max = limit with the maximum only at one end, smaller items elsewhere
+                let m = *rng.pick(&divisors(l));
+                let cnt = l / m;
+                let mut b: Vec<usize> = (0..cnt).map(|_| rng.below(m + 1).min(m.saturating_sub(1))).collect();
+                if rng.chance(1, 2) { b[0] = m } else { b[cnt - 1] = m }
+                b
+            }
+        };
+        if rng.chance(1, 4) {
+            rng.shuffle(&mut block);
+        }
+        sizes.extend(block);
+    }
+    // an oversized item first / middle / last
+    let big = l + 1 + rng.below(3) * l;
+    match rng.below(8) {
+        0 => sizes.insert(0, big),
+        1 => sizes.insert(sizes.len() / 2, big),
+        2 => sizes.push(big),
+        _ => {}
+    }
+    sizes.truncate(40);
+    let seed = if rng.chance(1, 3) { rng.below(4) as u64 } else { rng.next_u64() >> 3 };
+    Cfg { sort, shuffle, prefetch, limit, ty, seed, sizes }
+}
+
 impl Prop for C06 {
     fn gen(&mut self, rng: &mut Rng, tier: Tier, _i: usize, _n: usize) -> Val {
+        if rng.chance(3, 10) {
+            return to_val(&gen_boundary(rng));
+        }
         let mode = rng.below(4);
         let (sort, shuffle) = (mode & 1 == 1, mode & 2 == 2);
         let maxn = if tier == Tier::Thorough { 40 } else { 24 };
@@ -143,7 +313,7 @@ impl Prop for C06 {
     fn exhaustive(&mut self, _tier: Tier) -> Vec<Val> {
         // all size vectors of length <= 5 over {0,1,2,3}; limits 0..7; both limit types;
         // plain mode (prefetch irrelevant) and sort-only mode with prefetch 0..2;
-        // the two shuffling modes on vectors of length <= 4 with prefetch 1..2 and one seed
+        // the two shuffling modes on vectors of length <= 5 with prefetch 0..2
         let mut all = vec![];
         let mut vecs: Vec<Vec<usize>> = vec![];
         for n in 0..=5usize {
@@ -159,10 +329,15 @@ impl Prop for C06 {
                     for prefetch in 0..=2usize {
                         all.push(to_val(&Cfg { sort: true, shuffle: false, prefetch, limit, ty, seed: 0, sizes: v.clone() }));
                     }
-                    if v.len() <= 4 && limit % 2 == 1 {
-                        for prefetch in 1..=2usize {
+                    // the two shuffling modes: length <= 5; every limit for length <= 4, odd limits
+                    // and 0 and 2 for length 5; prefetch 0..2; seed 11 (and seed 5 for length <= 3)
+                    if v.len() <= 4 || limit % 2 == 1 || limit <= 2 {
+                        for prefetch in 0..=2usize {
                             for sort in [false, true] {
                                 all.push(to_val(&Cfg { sort, shuffle: true, prefetch, limit, ty, seed: 11, sizes: v.clone() }));
+                                if v.len() <= 3 {
+                                    all.push(to_val(&Cfg { sort, shuffle: true, prefetch, limit, ty, seed: 5, sizes: v.clone() }));
+                                }
                             }
                         }
                     }
@@ -192,14 +367,28 @@ impl Prop for C06 {
         .to_string()];
         tags.push(if c.ty == 0 { "batch_size".into() } else { "padded".into() });
         let first = self.watched(&c);
-        let Some(bl) = first.as_l() else {
+        let Some(fl) = first.as_l() else {
             return Some((first, tags));
         };
-        if first == Val::hang() || first == Val::panic() || bl.first() == Some(&Val::I(2)) {
+        if first == Val::hang() || first == Val::panic() || fl.first() == Some(&Val::I(2)) || fl.len() != 2 {
             return Some((first, tags));
         }
         let second = self.watched(&c);
         let rep = second == first;
+        let (Some(bl), Some(pl)) = (fl[0].as_l(), fl[1].as_l()) else {
+            return Some((first, tags));
+        };
+        let ids: Option<Vec<Vec<usize>>> =
+            bl.iter().map(|b| b.as_l().and_then(|l| l.iter().map(|x| x.as_usize()).collect())).collect();
+        let pulls: Option<Vec<usize>> = pl.iter().map(|x| x.as_usize()).collect();
+        let obs = match (&ids, &pulls) {
+            (Some(ids), Some(pulls)) => observe(&c, ids, pulls),
+            _ => None,
+        };
+        if obs.is_some() {
+            tags.push("exact-rng".into());
+        }
+        let batches = fl[0].clone();
         // non-trivial: at least two batches, one of them with two or more items, at least
         // two different sizes in the input
         let nb = bl.len();
@@ -217,7 +406,29 @@ impl Prop for C06 {
         if c.sizes.iter().any(|s| *s > lim) && c.ty == 1 {
             tags.push("oversized".into());
         }
-        Some((Val::L(vec![first, Val::b(rep)]), tags))
+        // boundary situations that actually occurred
+        if let (Some(ids), Some(pulls)) = (&ids, &pulls) {
+            let value = |b: &Vec<usize>| {
+                let mx = b.iter().map(|i| c.sizes.get(*i).copied().unwrap_or(0)).max().unwrap_or(0);
+                if c.ty == 0 { b.len() } else { b.len() * mx }
+            };
+            if ids.iter().any(|b| b.len() >= 2 && value(b) == lim) {
+                tags.push("full-batch".into()); // a batch exactly at the limit
+            }
+            if ids.iter().any(|b| b.len() == 1 && value(b) > lim) {
+                tags.push("alone-over".into()); // an oversized item alone in its batch
+            }
+            if (c.sort || c.shuffle) && pulls.first().map(|p| *p < c.sizes.len()).unwrap_or(false) {
+                tags.push("partial-fill".into()); // the buffer fill stopped before the end of the input
+            }
+        }
+        if !c.sizes.is_empty() && c.sizes.iter().all(|s| *s == 0) {
+            tags.push("all-zero".into());
+        }
+        if c.prefetch <= 1 {
+            tags.push("prefetch01".into());
+        }
+        Some((Val::L(vec![batches, Val::b(rep), Val::opt(obs, |x| x)]), tags))
     }
 
     fn canon(&mut self, input: &Val) -> Option<Val> {
